@@ -286,6 +286,9 @@ def check_unit(ex, s, u, d, seen, order, sync, limit):
 
 
 PROFILE = {
+    # polling clients come in flavours: plain, JSONP (j=<n>, d=<payload> posts), compressed
+    # answers (Accept-Encoding with a low threshold), both
+    'client_flavours': ['plain', 'plain', 'plain', 'jsonp', 'gzip', 'jsonp+gzip'],
     'world_kw_st': st.fixed_dictionaries({
         'handler_delay': st.sampled_from([{}, {}, {}, {'disconnect': 0.25}, {'message': 0.25},
                                           {'disconnect': 0.25, 'message': 0.25}])}),
@@ -294,7 +297,9 @@ PROFILE = {
     'max_sessions': 3,
     'packet_kinds': [('msg', 7), ('pong', 1), ('close', 1), ('upgrade', 1), ('bad', 2), ('noise', 1)],
     'post_modes': [('pkts', 10), ('raw', 1), ('many', 1)],
-    'config': {'transports': st.sampled_from([None, None, None, ['polling', 'websocket'],
+    'config': {'http_compression': st.sampled_from([True, True, False]),
+               'compression_threshold': st.sampled_from([0, 16, 1024]),
+               'transports': st.sampled_from([None, None, None, ['polling', 'websocket'],
                                               ['polling'], ['websocket']]),
                'max_http_buffer_size': st.sampled_from([1000000, 1000000, 120, 60]),
                'ping_interval': st.sampled_from([5, 25, 25]),
